@@ -481,6 +481,21 @@ def _length_first(ctx) -> None:
         problems = [p_ for p_ in problems if not (p_ in seen or seen.add(p_))]
         ctx.ob("b.length-before-result", f, "returns", not problems, "every result for a sequence operand follows the length comparison",
                f.node, message="; ".join(problems[:2]))
+        # a mapping is ONE operand ('%(a)s' % {'a': 1}), never a sequence of operands: wherever strings are excluded from the
+        # elementwise-sequence form, mappings are too
+        if q.endswith("._elementwise_operation"):
+            excl = []
+            for e in [x_ for x_ in it.events if x_.kind == "return" and x_.depth == 0]:
+                for t, pol in flatten_conds(e.conds):
+                    for x in subterms(t):
+                        if x[0] == "call" and x[1] == ("name", "isinstance") and len(x[2]) == 2 and x[2][0] in others and x[2][1][0] == "tuple":
+                            names = {y[1] for y in x[2][1][1] if y[0] == "name"}
+                            if "str" in names:
+                                excl.append(names)
+            okm = bool(excl) and all(({"Mapping", "dict"} & n_) for n_ in excl)
+            ctx.ob("b.length-before-result", f, "mapping-is-scalar", okm, "mappings are excluded from the sequence form like strings", f.node,
+                   message="the arithmetic kernel treats a mapping operand as a sequence of operands (its keys): "
+                           "Vector(['%(a)s']) % {'a': 1} raises 'Length mismatch' or pairs the elements with the keys")
 
 
 # ---------------------------------------------------------------------------------------------
@@ -892,11 +907,39 @@ def _wrappers(ctx) -> None:
         for d in lp.domain[1]:
             for t in _st(d):
                 if t[0] == "ifexp" and t[2][0] == "call" and t[2][1] == ("name", "Vector") and len(t[2][2]) == 1 and t[3] == t[2][2][0] \
-                        and is_other(t[3]) and any(x[0] == "call" and x[1] == ("name", "isinstance") for x in list(_st(t[1])) + list(_st(d))):
+                        and is_other(t[3]) and any(x[0] == "call" and x[1] == ("name", "isinstance") and x[2][0] == OTHER
+                                                   and any(y == ("name", "Iterable") for y in _st(x[2][1]))
+                                                   for x in list(_st(t[1])) + list(_st(d))):
                     seq_ok = True
     ctx.ob("e.wrappers", f, "date-add-sequence", seq_ok, "a plain sequence of day counts is normalised to a vector of them", f.node,
-           message="_Date.__add__: a plain list / tuple of day counts does not reach the day arithmetic (only an int vector and an int scalar "
-                   "do): `dates + [1, 2]` falls through to the generic kernel and returns (date, int) pairs")
+           message="_Date.__add__: a plain sequence of day counts (ANY non-string iterable: list, tuple, range, deque) does not reach the "
+                   "day arithmetic - the test is missing or limited to some sequence types: `dates + range(3)` falls through to the generic "
+                   "kernel and returns (date, int) pairs")
+    # a _Date object may hold datetimes (a date vector promoted in place stays a _Date): the midnight widening
+    # datetime.combine(x, ...) of an ELEMENT must not be applied to an element that already is a datetime (it would drop its time)
+    wprobs = []
+    for q2 in ("vector._Date._elementwise_compare", "vector._Date.__add__"):
+        dq = prog.func(q2)
+        di = interp_of(prog, dq)
+        DS = ("param", dq.params[0])
+        for e in di.events:
+            if e.kind != "call" or e.term[1] != ("attr", ("name", "datetime"), "combine") or not e.term[2]:
+                continue
+            x = e.term[2][0]
+            if not (x[0] == "elem" and (x[1] == DS or x[1] == ("attr", DS, "_underlying"))):
+                continue
+            guarded = any((not pol) and t[0] == "call" and t[1] == ("name", "isinstance") and t[2][0] == x
+                          and any(y == ("name", "datetime") for y in _st(t[2][1])) for t, pol in flatten_conds(e.conds))
+            if not guarded:
+                wprobs.append(f"{q2}: `{show(e.term, di)[:50]}` is applied to every element, a datetime element included: after "
+                              f"v[0] = datetime(2020, 1, 1, 5) on a date vector, v == datetime(2020, 1, 1, 5) is False")
+        for e in di.events:
+            if e.kind == "call" and e.term[1][0] == "attr" and e.term[1][2] == "toordinal" and e.term[1][1][0] == "elem" \
+                    and e.term[1][1][1] in (DS, ("attr", DS, "_underlying")):
+                wprobs.append(f"{q2}: day arithmetic through toordinal() drops the time of a datetime element (v + 1 returns dates)")
+    ctx.ob("e.wrappers", prog.func("vector._Date._elementwise_compare"), "date-widening-guarded", not wprobs,
+           "an element is widened to midnight only if it is not a datetime already", prog.func("vector._Date._elementwise_compare").node,
+           message="; ".join(sorted(set(wprobs))[:2]))
 
 
 def _resolve(ctx) -> None:
@@ -930,6 +973,21 @@ def _resolve(ctx) -> None:
 
 _V, _T = "vector", "table"
 MUTANTS = [
+    dict(id="mapping-operand-as-sequence", module="vector", old="		if isinstance(other, Iterable) and not isinstance(other, (str, bytes, bytearray, Mapping)):\n			if len(self) != len(other):",
+         new="		if isinstance(other, Iterable) and not isinstance(other, (str, bytes, bytearray)):\n			if len(self) != len(other):", rules=["b.length-before-result"],
+         desc="reverts fix c01a1e7"),
+    dict(id="date-compare-widens-every-element", module="vector", old="	return x if isinstance(x, datetime) else datetime.combine(x, datetime.min.time())",
+         new="	return datetime.combine(x, datetime.min.time())", rules=["e.wrappers"], desc="reverts fix ccb2980 (comparison)"),
+    dict(id="date-add-through-toordinal", module="vector",
+         old="			return Vector(tuple((s + timedelta(days=other) if s is not None else None) for s in self._underlying))",
+         new="			return Vector(tuple((date.fromordinal(s.toordinal() + other) if s is not None else None) for s in self._underlying))",
+         rules=["e.wrappers"], desc="reverts fix ccb2980 (v + 1 on datetimes returns dates)"),
+    dict(id="date-add-list-tuple-only", module="vector",
+         old="		if isinstance(other, Iterable) and not isinstance(other, (Vector, str, bytes, bytearray, Mapping)):\n			# a plain sequence of day counts",
+         new="		if isinstance(other, (list, tuple)):\n			# a plain sequence of day counts", rules=["e.wrappers"], desc="reverts fix 8277ef1"),
+    dict(id="fallback-pairs-none", module="vector", count=2, nth=0,
+         old="				result_values = tuple(None if (x is None or y is None) else (x, y) for x, y in zip(self, other, strict=True))",
+         new="				result_values = tuple((x, y) for x, y in zip(self, other, strict=True))", rules=["c.pairing"], desc="reverts fix 0468f0f"),
     dict(id="table-rsub-missing", module="table",
          old="	def __rsub__(self, other):\n		return self._table_elementwise_operation(other, _reflected(operator.sub), '__rsub__', '-')\n", new="",
          rules=["a.dispatch"], desc="part of the defect repaired by fix 2417993: 5 - t falls back to Vector.__rsub__ (rows)"),
